@@ -138,3 +138,30 @@ func CtxSpecs() []*spec.Spec {
 	}
 	return out
 }
+
+// CodecHostSpecs: every object-shaped annotated construct hosted by a parent that has a generated codec of its own
+// and hands the child to the child's codec - as a flattened child (with prefix) and as a variant of a flattened and
+// of a nested discriminated oneof. Unlike the protojson-coded contexts of F-ctx these are expected to work, so the
+// family is open to every check (tags extended/valid/codec, not ctx): the child's annotation must show in the
+// parent's wire form, in the OpenAPI schema of the parent and in its TypeScript declaration.
+func CodecHostSpecs() []*spec.Spec {
+	var out []*spec.Spec
+	for _, a := range annotatedConstructs() {
+		if !a.Obj {
+			continue
+		}
+		var enums []*spec.Enum
+		if a.Enums != nil {
+			enums = a.Enums()
+		}
+		holders := []*spec.Message{
+			spec.M("FlattenChild", spec.Msg("a", "A").FlatP("a_"), spec.F("note", "string"), spec.F("count", "int64")),
+			spec.M("DiscFlatVariant", spec.F("id", "string"), spec.Msg("a", "A").In("v"), spec.Msg("o", "Other").In("v")).WithOneof(&spec.Oneof{Name: "v", Config: true, Disc: "vtype", Flatten: true}),
+			spec.M("DiscNestedVariant", spec.F("id", "string"), spec.Msg("a", "A").In("v"), spec.Msg("o", "Other").In("v")).WithOneof(&spec.Oneof{Name: "v", Config: true, Disc: "vkind"}),
+			spec.M("Other", spec.F("zzz", "string")),
+		}
+		f := &spec.File{Enums: enums, Messages: append(a.Msgs(), holders...), Services: []*spec.Service{EchoService("HostService", "A", "FlattenChild", "DiscFlatVariant", "DiscNestedVariant")}}
+		out = append(out, withCell(spec.One("host_"+a.Key, f), "host/ann="+a.Key, "extended", "valid", "codec"))
+	}
+	return out
+}
